@@ -3913,6 +3913,10 @@ def _dSIS_effective_degree_(X, t, original_shape, tau, gamma):
                 for s in range(original_shape[0])])
     SI = sum([sum([i*Ssi[s,i] for i in range(original_shape[1])]) 
                 for s in range(original_shape[0])])
+    if SS == 0: #then ISS is 0 as well and ISS/SS only multiplies terms that are 0
+        SS = 1
+    if SI == 0: #similarly ISI is 0
+        SI = 1
 
     g1 = np.zeros(original_shape)
     g2 = np.zeros(original_shape)
